@@ -23,6 +23,7 @@ RULE = (
     "the filter's own detections) by truth table after decoding; otherwise the queries equal those of the unfiltered collection. "
     "non-trivial = case in which the filter applies."
 )
+RULE += (" " + 'L also with a definition text on either log source; R with other valid UUID spellings; (E) one filter that cannot be applied targets the rule at each position of collections of 1-4 rules (errors collected): every other rule converts exactly as without that filter.')
 ASSUMPTIONS = ["each detection is one opaque atom; rule-side and filter-side detections use disjoint field names", "decoder mc/qparse.py with K0"]
 K = V.K()
 BOUNDS = {"quick": dict(ops=1), "thorough": dict(ops="1 on both sides for every name set; 2 on one side at a time for the first rule name set x 4 filter name sets")}
